@@ -332,7 +332,7 @@ SCALAR_FILTERS = [
 def plan(tier, seed, scale):
     K = 16
     tasks = [{"name": "registry", "kind": "registry"}]
-    total = int((1600 if tier == "quick" else 6000) * scale)
+    total = int((1600 if tier == "quick" else 20000) * scale)
     for i in range(K):
         tasks.append({"name": "rand-%d" % i, "kind": "rand", "n": max(total // K, 3), "shard": i})
     return tasks
